@@ -53,8 +53,18 @@ def write_replay(pid, key, clause, desc, msg, seed, tier, extra=None):
 def replay(pid, path):
     bootstrap.setup()
     mod = importlib.import_module("vlib.props." + pid.lower())
-    with open(path) as f:
-        rec = json.load(f)
+    try:
+        with open(path) as f:
+            rec = json.load(f)
+    except (ValueError, UnicodeDecodeError):
+        from vlib import fuzz
+        ok, msg = fuzz.replay(path)      # a raw libFuzzer input
+        if ok:
+            print("replay ok: fuzz target runs clean on %s" % path)
+            return 0
+        print("FAIL fuzz input: %s" % msg)
+        print("VIOLATION property=%s replay=%s" % (pid, os.path.abspath(path)))
+        return 1
     desc = rec["descriptor"] if "descriptor" in rec else rec
     out = mod.run_case(desc)
     known = load_known(pid)
@@ -233,6 +243,19 @@ def main(argv=None):
                             extra={"count": b["count"], "shrunk": bool(b.get("shrunk"))})
         violations.append((b, path))
 
+    # ---- 4b. additional engines of the property (e.g. the libFuzzer tier of C10 / C16) -----------------------
+    extra_cov = {}
+    if hasattr(mod, "extra_engine"):
+        xf, extra_cov = mod.extra_engine(a.tier, seed, work)
+        for f in xf:
+            e = match_known(known, f["key"])
+            if e:
+                print("KNOWN-FINDING: property=%s %s" % (pid, e["what"]))
+                continue
+            b = {"key": f["key"], "clause": f["clause"], "count": 1, "replay_msg": f["msg"], "examples": []}
+            unknown.append(b)
+            violations.append((b, f["path"]))
+
     # ---- 5. evidence ---------------------------------------------------------------------------------------
     wall = time.time() - t0
     cov = {
@@ -257,6 +280,7 @@ def main(argv=None):
         cov["exhaustive"] = bool(mod.EXHAUSTIVE if not callable(mod.EXHAUSTIVE) else mod.EXHAUSTIVE(a.tier))
     if prop_extra and hasattr(mod, "merge_extra"):
         cov.update(jsonable(mod.merge_extra(prop_extra, a.tier)))
+    cov.update(jsonable(extra_cov))
     ev = {"property_id": pid, "tier": a.tier, "seed": seed, "level": getattr(mod, "LEVEL", "exploration"), "coverage": cov,
           "assumptions": list(getattr(mod, "ASSUMPTIONS", [])), "wall_s": round(wall, 2), "violations": len(violations)}
     from vlib.evidence import write_evidence
